@@ -161,6 +161,7 @@ func WorkerMain() int {
 	first := envInt("VERIF_FIRST", 0)
 	count := envInt("VERIF_COUNT", 1)
 	deadline := time.Now().Add(time.Duration(envInt("VERIF_WALL_S", 3600)) * time.Second)
+	wallDeadline = deadline
 	selftest := os.Getenv("VERIF_SELFTEST") != ""
 	known := loadKnown()
 	replayDir := os.Getenv("VERIF_REPLAY_DIR")
@@ -406,3 +407,12 @@ func WriteReplay(p *Prop, sc any, path string) {
 	b, _ := json.MarshalIndent(rp, "", " ")
 	_ = os.WriteFile(path, b, 0o644)
 }
+
+// wallDeadline is the real-time end of this worker's budget. A property whose single scenario
+// is a long enumeration (C09: every operation x every fault kind) asks WallExpired between
+// evaluations and stops enumerating, so that the worker ends on its own instead of being killed.
+var wallDeadline time.Time
+
+// WallExpired reports whether the worker's wall budget is used up. Call it outside bubbles only
+// (inside one, time.Now is the fake clock).
+func WallExpired() bool { return !wallDeadline.IsZero() && time.Now().After(wallDeadline) }
